@@ -1,5 +1,8 @@
 //! Module to read the binary ruFsm format.
 
+#[cfg(rfsm_verif)]
+use crate::verif_seams::collections::HashMap;
+#[cfg(not(rfsm_verif))]
 use std::collections::HashMap;
 use std::io::Read;
 use std::time::{SystemTime, UNIX_EPOCH};
